@@ -193,16 +193,16 @@ def observe(ctx, r, v, ref, hist, opname):
         try:
             c = v.count(y); m = y in v
         except Exception as e:  # noqa
-            return bad(f'count/contains({y!r}) raised {e!r}', 'count')
+            return bad(f'count/contains({rp(y)}) raised {e!r}', 'count')
         if bool(c) != exp or m != exp or c not in (0, 1):
-            return bad(f'count({y!r})={c}, in={m}, list says {exp}', 'count', f'bool(v.count({y!r})) == ({x!r} in L) and (({y!r} in v) == ({x!r} in L))')
+            return bad(f'count({rp(y)})={c}, in={m}, list says {exp}', 'count', f'bool(v.count({rp(y)})) == ({x!r} in L) and (({rp(y)} in v) == ({x!r} in L))')
         try:
             i = v.index(y)
             if not exp or i != l.index(x):
-                return bad(f'index({y!r})={i} but list says {l.index(x) if exp else "absent"}', 'index')
+                return bad(f'index({rp(y)})={i} but list says {l.index(x) if exp else "absent"}', 'index')
         except ValueError:
             if exp:
-                return bad(f'index({y!r}) raised but label present', 'index')
+                return bad(f'index({rp(y)}) raised but label present', 'index')
     n = len(l)
     for i in range(-n - 1, n + 1):
         try:
@@ -277,6 +277,22 @@ def alias_table():
     return t
 
 
+def rp(o):
+    """source text that rebuilds the object with its exact type (NumPy 1.x reprs drop the type)"""
+    if isinstance(o, np.generic):
+        return f'np.{type(o).__name__}({o!r})'
+    if isinstance(o, tuple):
+        return '(' + ''.join(rp(x) + ', ' for x in o) + ')'
+    if isinstance(o, list):
+        return '[' + ', '.join(rp(x) for x in o) + ']'
+    return repr(o)
+
+
+def same_obj(c, flat):
+    """objects of the table with the canonical form c (a canonical pair), else the plain value"""
+    return [x for x in flat if canon_py(x) == c] or [c[1]]
+
+
 def is_np(o):
     return isinstance(o, np.generic)
 
@@ -300,7 +316,7 @@ def alias_cases(ctx, r, lines, expect, speclines, meta):
             same = b in {a: 0}
             if same != (canon_py(a) == canon_py(b)):
                 ctx.fail('property', 'Variables.aliases', 'key equality', f'{a!r} and {b!r}: dict says {"same" if same else "different"} key, canonical forms say otherwise',
-                         repro=f'import numpy as np\nfrom numpy import *\nassert False, "alias table: {pk(a)} vs {pk(b)}"')
+                         repro=f'import numpy as np\nassert ({rp(b)} in {{{rp(a)}: 0}}) == {canon_py(a) == canon_py(b)}, "alias table: {pk(a)} vs {pk(b)}"')
                 return
             emit(f'pyeq {pk(a)} {pk(b)}', f'ok {int(same)}', 'alias:pyeq')
             npairs += 1
@@ -321,76 +337,84 @@ def alias_cases(ctx, r, lines, expect, speclines, meta):
             idx = v.index(q) if c else '-'
         except Exception as e:  # noqa
             ctx.fail('property', 'Variables.aliases', 'count/index raised', f'Variables({objs!r}): count/index({q!r}) raised {type(e).__name__}: {e}',
-                     repro=f'import numpy as np\nfrom numpy import *\nfrom dimod.variables import Variables\nv = Variables({objs!r}); v.count({q!r}); ({q!r} in v) and v.index({q!r})')
+                     repro=f'import numpy as np\nfrom dimod.variables import Variables\nv = Variables({rp(objs)}); v.count({rp(q)}); ({rp(q)} in v) and v.index({rp(q)})')
             return
         ctx.case(('alias', pk(q), tuple(pk(o) for o in objs)), nontrivial=bool(c))
         if bool(c) != want or inn != want or c not in (0, 1) or (want and idx != ref.index(canon_py(q))) or [canon_py(x) for x in v] != ref:
             ctx.fail('property', 'Variables.aliases', 'count/index of an alias', f'Variables({objs!r}): count({q!r})={c}, index={idx}, list(v)={list(v)!r}; the list of labels says present={want}',
-                     repro=f'import numpy as np\nfrom numpy import *\nfrom dimod.variables import Variables\nv = Variables({objs!r})\nassert bool(v.count({q!r})) == {want} and (({q!r} in v) == {want})'
-                           + (f' and v.index({q!r}) == {ref.index(canon_py(q))}' if want else ''))
+                     repro=f'import numpy as np\nfrom dimod.variables import Variables\nv = Variables({rp(objs)})\nassert bool(v.count({rp(q)})) == {want} and (({rp(q)} in v) == {want})'
+                           + (f' and v.index({rp(q)}) == {ref.index(canon_py(q))}' if want else ''))
             return
         emit(f"kcount {','.join(pk(o) for o in objs)} {pk(q)}", f'ok {int(c)} {idx} {state(v)}', 'alias:kcount')
     ctx.tick('alias count/index', len(cases))
     # (c) object-level histories (aliases stored, NumPy scalars included; no tuples next to NumPy scalars: D23)
     flat = [o for o in T if not isinstance(o, tuple)]
+
+    def same(c):
+        return [x for x in flat if canon_py(x) == canon_py(c)] or [c]
+
     for _ in range(ctx.scale(300, 3000)):
-        v = Variables(); ref = []; toks = []; flags = ''; code = ['import numpy as np', 'from numpy import *', 'from dimod.variables import Variables', 'v = Variables()']
+        v = Variables(); ref = []; toks = []; flags = ''; code = ['import numpy as np', 'from dimod.variables import Variables', 'v = Variables()']
         for _ in range(r.randint(1, 10)):
             k = r.choice(['+', '+', '?', '?', '~', 'p', 'r', 'c', 'x', 'R', 'R', 'R'] if ref else ['+', '?', '~', 'p', 'x', 'R'])
+            # the operation, its reference effect and whether the list accepts it are fixed BEFORE the real call
+            if k in '+?':
+                o = r.choice(flat); toks.append(k + pk(o)); src = f'v._append({rp(o)}, permissive={k == "?"})'
+                want = canon_py(o) not in ref or k == '?'
+                if canon_py(o) not in ref:
+                    ref.append(canon_py(o))
+                call = lambda: v._append(o, permissive=(k == '?'))  # noqa: E731
+            elif k == '~':
+                toks.append('+~'); src = 'v._append()'; n = len(ref)
+                if ('i', n) in ref:
+                    n = 0
+                    while ('i', n) in ref:
+                        n += 1
+                ref.append(('i', n)); want = True; call = lambda: v._append()  # noqa: E731
+            elif k == 'p':
+                toks.append('p'); src = 'v._pop()'; want = bool(ref)
+                if ref:
+                    ref.pop()
+                call = lambda: v._pop()  # noqa: E731
+            elif k == 'x':
+                o = r.choice(flat) if r.random() < .4 or not ref else r.choice(same_obj(r.choice(ref), flat))
+                toks.append('x' + pk(o)); src = f'v._remove({rp(o)})'
+                want = canon_py(o) in ref
+                if want:
+                    ref.remove(canon_py(o))
+                call = lambda: v._remove(o)  # noqa: E731
+            elif k == 'R':
+                # mapping over objects: keys / values are aliases of current labels, other objects, swaps and cycles
+                cur = list(v)
+                ks = [r.choice(same(c)) for c in r.sample(cur, min(len(cur), r.randint(0, 3)))]
+                ks += [r.choice(flat) for _ in range(r.randint(0, 2))]
+                if r.random() < .4 and len(ks) > 1:
+                    mp = {ks[i]: r.choice(same(ks[(i + 1) % len(ks)])) for i in range(len(ks))}
+                else:
+                    mp = {a: r.choice(flat) for a in ks}
+                toks.append('R:' + '|'.join(f'{pk(a)}>{pk(b)}' for a, b in mp.items()))
+                src = 'v._relabel({' + ', '.join(f'{rp(a)}: {rp(b)}' for a, b in mp.items()) + '})'
+                cm = {canon_py(a): canon_py(b) for a, b in mp.items()}
+                news = list(cm.values())
+                want = len(set(news)) == len(news) and all(not (n in ref and n not in cm) for n in news)
+                if want:
+                    ref = [cm.get(x, x) for x in ref]
+                call = lambda: v._relabel(mp)  # noqa: E731
+            elif k == 'r':
+                toks.append('r'); src = 'v._relabel_as_integers()'; ref = [('i', i) for i in range(len(ref))]; want = True
+                call = lambda: v._relabel_as_integers()  # noqa: E731
+            else:
+                toks.append('c'); src = 'v._clear()'; ref = []; want = True; call = lambda: v._clear()  # noqa: E731
+            code.append(f'try: {src}\nexcept (ValueError, IndexError): pass')
             ok = True
             try:
-                if k in '+?':
-                    o = r.choice(flat); toks.append(k + pk(o)); code.append(f'try: v._append({o!r}, permissive={k == "?"})\nexcept ValueError: pass')
-                    want = canon_py(o) not in ref or k == '?'
-                    if canon_py(o) not in ref:
-                        ref.append(canon_py(o))
-                    v._append(o, permissive=(k == '?'))
-                elif k == '~':
-                    toks.append('+~'); code.append('v._append()'); n = len(ref)
-                    if ('i', n) in ref:
-                        n = 0
-                        while ('i', n) in ref:
-                            n += 1
-                    ref.append(('i', n)); want = True; v._append()
-                elif k == 'p':
-                    toks.append('p'); code.append('try: v._pop()\nexcept IndexError: pass'); want = bool(ref)
-                    if ref:
-                        ref.pop()
-                    v._pop()
-                elif k == 'x':
-                    o = r.choice(flat) if r.random() < .4 or not ref else r.choice([x for x in flat if canon_py(x) == r.choice(ref)] or flat)
-                    toks.append('x' + pk(o)); code.append(f'try: v._remove({o!r})\nexcept ValueError: pass')
-                    want = canon_py(o) in ref
-                    if want:
-                        ref.remove(canon_py(o))
-                    v._remove(o)
-                elif k == 'R':
-                    # mapping over objects: keys / values are aliases of current labels, other objects, swaps and cycles
-                    cur = list(v)
-                    ks = [r.choice([x for x in flat if canon_py(x) == canon_py(c)] or [c]) for c in r.sample(cur, min(len(cur), r.randint(0, 3)))]
-                    ks += [r.choice(flat) for _ in range(r.randint(0, 2))]
-                    if r.random() < .4 and len(ks) > 1:
-                        mp = {ks[i]: r.choice([x for x in flat if canon_py(x) == canon_py(ks[(i + 1) % len(ks)])]) for i in range(len(ks))}
-                    else:
-                        mp = {a: r.choice(flat) for a in ks}
-                    toks.append('R:' + '|'.join(f'{pk(a)}>{pk(b)}' for a, b in mp.items()))
-                    code.append(f'try: v._relabel({mp!r})\nexcept ValueError: pass')
-                    cm = {canon_py(a): canon_py(b) for a, b in mp.items()}
-                    news = list(cm.values())
-                    want = len(set(news)) == len(news) and all(not (n in ref and n not in cm) for n in news)
-                    if want:
-                        ref = [cm.get(x, x) for x in ref]
-                    v._relabel(mp)
-                elif k == 'r':
-                    toks.append('r'); code.append('v._relabel_as_integers()'); ref = [('i', i) for i in range(len(ref))]; want = True; v._relabel_as_integers()
-                else:
-                    toks.append('c'); code.append('v._clear()'); ref = []; want = True; v._clear()
+                call()
             except (ValueError, IndexError):
                 ok = False
             flags += str(int(ok))
             if ok != want or [canon_py(x) for x in v] != ref or len(v) != len(ref):
-                ctx.fail('property', 'Variables.aliases', 'history over alias objects', f'after {toks}: list(v)={list(v)!r}, raised={not ok}; labels should be {ref!r}, accepted={want}',
-                         repro='\n'.join(code) + f'\nassert [int(x) if not isinstance(x, str) else x for x in v] == {[c[1] for c in ref]!r}')
+                ctx.fail('property', 'Variables.aliases', 'history over alias objects', f'after {code[3:]}: list(v)={list(v)!r}, last call raised={not ok}; labels should be {[c[1] for c in ref]!r}, list accepts the last call={want}',
+                         repro='\n'.join(code[:-1]) + f'\n_ok = True\ntry: {src}\nexcept (ValueError, IndexError): _ok = False\nassert _ok == {want} and [x if isinstance(x, str) else int(x) for x in v] == {[c[1] for c in ref]!r}')
                 return
         ctx.case(('khist', tuple(toks)), nontrivial=len(v) > 0)
         emit('khist ' + ','.join(toks), f"ok {flags} {state(v)} {','.join(lab(x) for x in v)}", 'alias:khist')
@@ -417,7 +441,7 @@ def one_history(ctx, r, nops, lines, expect, speclines, meta, errcls):
         try:
             if k == 'append':
                 x = r.choice(ALPHA); p = r.random() < .5; y = alias(r, x, store=True)
-                lines.append(f'append {lab(x)} {int(p)}'); hist.append(f'v._append({y!r}, permissive={p})')
+                lines.append(f'append {lab(x)} {int(p)}'); hist.append(f'v._append({rp(y)}, permissive={p})')
                 sok = ref.append(x, p); v._append(y, permissive=p)
             elif k == 'extend':
                 x = r.choice(ALPHA); p = r.random() < .5
